@@ -1340,9 +1340,14 @@ def pfmOracle (s : Pfm3) (ms : List (Manifold3 Float)) : String :=
       match manifoldOracle3 sh p s.pred m none drift false with
       | some r =>
         -- shapes touching at EXACTLY zero distance: GJK/EPA has no direction to return (one-shot `contact` = Some(0)); its own verdict
+        -- a cone with a contact normal horizontal up to rounding (|dir.y| ≤ 1e-9): `Cone::local_support_feature` (`dir.y > 0.0`) returns the cap square, which
+        -- `contacts_face_face` then sees edge-on; its own verdict
+        let coneEdgeOn := (s.kind == 6 && Float.abs m.n1.y ≤ 1.0e-9) || (s.kind == 5 && Float.abs m.n2.y ≤ 1.0e-9)
         match s.oneshot[i]? with
-        | some (true, d) => if d == 0.0 then some s!"exact-touching-gjk-epa-degenerate call={i} {r}" else some s!"call={i} {r}"
-        | _ => some s!"call={i} {r}"
+        | some (true, d) =>
+          if d == 0.0 then some s!"exact-touching-gjk-epa-degenerate call={i} {r}"
+          else if coneEdgeOn then some s!"cone-cap-seen-edge-on call={i} {r}" else some s!"call={i} {r}"
+        | _ => if coneEdgeOn then some s!"cone-cap-seen-edge-on call={i} {r}" else some s!"call={i} {r}"
       | none => go (i + 1) ps ms
   match go 0 s.poses ms with
   | some r => s!"fail {r}"
